@@ -33,7 +33,7 @@ def last_wait(out, markers):
     return last or k
 
 
-def gen_scenarios(c, nref, lastwait):
+def gen_scenarios(c, nref, lastwait, nspawn):
     rng = c.rng
     scs = []
     k = 0
@@ -52,6 +52,11 @@ def gen_scenarios(c, nref, lastwait):
         for kind, ph in phases:
             add(kind, {"phase": ph}, rng.choice(["late", "late", "early"]), rng.choice(SIGNALS))
         add("one", {"line": rng.randrange(20, 40)}, "late", "KILL", second=rng.randrange(5, 60))
+        k += 1
+        scs.append(cases.sc_frozen_orphan(f"s{k:04d}", nspawn))
+        for sig, latch in (("TERM", "late"), ("KILL", "early")):
+            k += 1
+            scs.append(cases.sc_token_restart(f"s{k:04d}", sig, "running:1", latch))
         steps = dict(one=3, chain2=5, indep2=9)
         per = {}
         for kind in ("one", "chain2", "indep2"):
@@ -79,19 +84,26 @@ def gen_scenarios(c, nref, lastwait):
         for _ in range(20):
             kind = rng.choice(["one", "chain2", "indep2"])
             add(kind, {"line": rng.randrange(1, nref[kind] + 1)}, "late", "KILL", second=rng.randrange(1, 80))
+        for i in range(12):
+            k += 1
+            scs.append(cases.sc_frozen_orphan(f"s{k:04d}", nspawn + (i % 3), SIGNALS[i % 2], wait=rng.choice([1.5, 2.5, 4.0])))
+        for sig in SIGNALS:
+            for ph in ("running:1", "submitted", "entered"):
+                for latch in ("late", "early"):
+                    k += 1
+                    scs.append(cases.sc_token_restart(f"s{k:04d}", sig, ph, latch))
         rng.shuffle(scs)
     return scs
 
 
 def hang_signature(sc, out, rows):
-    """the scenario ran out of time although nothing was left to wait for: every body that began has ended,
-    the latches are open, the log has been silent for a while, and a restarted experiment is still there"""
+    """the scenario ran out of time although nothing was left to wait for: a restarted experiment that has submitted
+    everything is still there, the latches are open, every body that began has ended, no job process is alive, and
+    the shared log has been silent for a while"""
     if not out["timed_out"] or not out.get("alive_at_end"):
         return None
-    if (out.get("quiet_s") or 0) < 10:
+    if (out.get("quiet_s") or 0) < 10 or not out.get("latch_open") or out.get("jobs_alive_at_end"):
         return None
-    if not all(out["snapshot"].get(str(t), {}).get("done") for t in sc["tags"]):
-        return None             # something may still have to run: not conclusive
     begun = {(r["tag"], r["pid"]) for r in rows if r["who"] == "P" and r["kind"] == "begin"}
     ended = {(r["tag"], r["pid"]) for r in rows if r["who"] == "P" and r["kind"] == "end"}
     if begun - ended:
@@ -102,7 +114,8 @@ def hang_signature(sc, out, rows):
     if not stuck:
         return None
     empty = [t for t, s in out["snapshot"].items() if s.get("pid") and s.get("pidvalue") in (None, "unreadable")]
-    return dict(stuck_runs=stuck, empty_pid_files=empty)
+    never = [t for t in sc["tags"] if not any(tg == t for tg, _ in begun) and not out["snapshot"].get(str(t), {}).get("done")]
+    return dict(stuck_runs=stuck, empty_pid_files=empty, jobs_never_started=never, token_files=out.get("token_files"))
 
 
 def oracle(c, sc, out):
@@ -114,7 +127,8 @@ def oracle(c, sc, out):
     verdict = "ok"
     hs = hang_signature(sc, out, rows)
     if hs is not None:
-        key = "C11:empty-pid-file-stuck" if hs["empty_pid_files"] else "C11:restart-stuck"
+        key = ("C11:empty-pid-file-stuck" if hs["empty_pid_files"] else
+               "C11:token-not-reclaimed-stuck" if sc["meta"].get("token") and hs["jobs_never_started"] else "C11:restart-stuck")
         c.violation(key, "the experiment run again after the kill never ends: " + json.dumps(hs), data)
         return "violation"
     if not cases.usable(out):
@@ -150,6 +164,28 @@ def oracle(c, sc, out):
         if cases.count_begins(rows, t) == 0:
             c.violation("C11:done-without-run", f"job {t} is reported DONE but its body never ran", data)
             verdict = "violation"
+    if sc["meta"].get("token"):
+        if out.get("token_files"):
+            c.violation("C11:token-file-left", f"token files remain after the last run: {out['token_files']}", data)
+            verdict = "violation"
+        # the token has one unit: the two bodies never overlap
+        inside = None
+        for r in rows:
+            if r["who"] == "P" and r["kind"] == "begin":
+                if inside is not None:
+                    c.violation("C11:token-capacity", "two jobs sharing a token of total 1 ran at the same time", data)
+                    verdict = "violation"
+                inside = r["pid"]
+            elif r["who"] == "P" and r["kind"] == "end" and inside == r["pid"]:
+                inside = None
+        # killed while a job was running and recorded: exactly one process per job over all runs
+        if sc["meta"]["kill"].get("phase", "").startswith("running"):
+            for t in tags:
+                nl = sum(1 for r in rows if r["who"] == "S0" and r["kind"] == "R" and r["rest"][0] == "aio_run" and r["rest"][1] == str(t))
+                if nl != 1:
+                    c.violation("C11:launch-count", f"job {t} was launched {nl} times over all runs (kill while it was running, "
+                                "recorded in its pid file)", data)
+                    verdict = "violation"
     # adoption: a job whose process was recorded in the pid file and still inside its body when the last run
     # looked for it must not be launched again by that run
     for t in tags:
@@ -217,15 +253,24 @@ def run(c: Check):
         for i, g in enumerate(gold):
             scs.append(dict(g, id=f"gold{i}"))
     ref_out = run_impl("drive_c11.py", dict(scenarios=refs, base=base, workers=3), timeout=300) if refs else []
-    nref, lastwait = {}, {}
+    nref, lastwait, nspawn = {}, {}, 34
     for sc, o in zip(refs, ref_out):
         if o is None or not cases.usable(o):
             raise InternalError(f"reference run {sc['id']} did not complete: {json.dumps(o)[:1500] if o else o}")
         nref[sc["meta"]["kind"]] = nlines(o)
         lastwait[sc["meta"]["kind"]] = last_wait(o, markers)
+        if sc["meta"]["kind"] == "one":
+            # the first counted line at which the job process exists
+            kk = 0
+            for r in replay.parse_log(o["log"]):
+                if r["who"] != "P" and r["kind"] == "L" and r["rest"][0] in cases.KILLFUNCS:
+                    kk += 1
+                    if r["rest"][0] == "aio_run" and any(x.startswith("pid=") for x in r["rest"][3:]):
+                        nspawn = kk
+                        break
     c.extra["reference_lines"] = nref
     if not c.replay:
-        scs += gen_scenarios(c, nref, lastwait)
+        scs += gen_scenarios(c, nref, lastwait, nspawn)
     outs = run_impl("drive_c11.py", dict(scenarios=scs, base=base, workers=6, deadline=t_budget),
                     timeout=(240 if c.quick else 1500)) if scs else []
     allsc = list(zip(refs + scs, ref_out + outs))
@@ -240,6 +285,8 @@ def run(c: Check):
         fam = m["family"]
         c.count(f"family:{fam}")
         c.count(f"config:{m['kind']}")
+        if m.get("frozen_orphan"):
+            c.count("kill:frozen-orphan")
         if fam == "restart":
             c.count("signal:" + m["sig"])
             c.count("latch:" + m["latch"])
@@ -284,7 +331,9 @@ def run(c: Check):
         "must end successfully); psutil reports liveness of the pid in the pid file truthfully, no pid reuse",
         "the theorems are safety statements plus absence of dead ends (C11_no_deadlock); that an enabled effect is eventually "
         "taken (fair OS scheduling, terminating task bodies) is assumed",
-        "tokens (tokens_clean) are not part of this check: no token is used by the workloads",
+        "token workloads (2 jobs sharing a CounterToken of total 1) are checked by the oracle (adopted not relaunched, one "
+        "launch per job, capacity, no token file left = tokens_clean) and validated as traces against JobDir.v with the token "
+        "abstracted away (its gate only delays LReady); the token protocol itself is C08/C09's model",
     ]
 
 
